@@ -125,6 +125,14 @@ Proof.
   - subst d. rewrite lnat_eqb_refl in E. discriminate.
 Qed.
 
+(* ... and for operands that are Models (initialised or not — a Model that never ran reports is_initialized = False) or
+   lists of nodes, the link is accepted iff EVERY (output node of the left operand, input node of the right operand) pair
+   passes that check: a mismatch between two initialised nodes is rejected however they are wrapped. *)
+Theorem C12_link_operands (senders receivers : list node) :
+  link_check senders receivers = ROk tt <->
+  Forall (fun s => Forall (fun r => link_1to1 s r = ROk tt) receivers) senders.
+Proof. exact (link_check_spec senders receivers). Qed.
+
 (* ---------------------------------------------------------------------------------------------- non-vacuity *)
 (* a fresh Ridge: call before any target is known -> RuntimeError and nothing changes; fit infers (3 -> 2); then a
    (5, 3) run gives 5 rows of width 2; a (5, 4) run, an object array, a str and a list are rejected, node unchanged. *)
@@ -207,6 +215,7 @@ Print Assumptions C12_rows_train.
 Print Assumptions C12_state_shape.
 Print Assumptions C12_state_shape_history.
 Print Assumptions C12_link_dims.
+Print Assumptions C12_link_operands.
 Print Assumptions C12_delay_state_refuted.
 Print Assumptions C12_sklearn_state_refuted.
 Print Assumptions C12_too_many_dims_prefix_refuted.
